@@ -8,7 +8,11 @@
 //    "gaps":[[op...],[op...]],                                  operations at main level after pass 1, 2, ...; #passes = len
 //    "scripts":{"1":[[op...],[op...]],...}}                     what the j-th callback invocation of event i does
 //   op = {"k":"en"|"dis"|"del","e":i} | {"k":"init","e":i,"fd":f} | {"k":"close","fd":f} | {"k":"new","e":i,"m":"RW","os":true}
+//        | {"k":"init","e":i,"fd":f,"m":"R","os":true}   (re-initialise with other conditions / mode; without m/os: the slot's current ones)
+//        | {"k":"arm"}                     (arm the scenario's one-shot 1 ms timer; it is due in the next pass, its callback runs "tscripts")
 //        | {"k":"ready","fd":f,"s":"RW"}   (main level only: make descriptor f ready for exactly these conditions)
+// The loop's timers read a virtual clock (hook steady_ms) that the in-loop driver advances by 2 ms per pass, so an armed timer
+// expires exactly in the next pass, before the ready descriptors of that pass are served; nothing sleeps.
 // Descriptors are ends of socket pairs / pipes whose other end stays with the driver, so readiness is produced by
 // writing / draining on the other end.  The loop runs in kForever mode; a self-re-posting runNext task is the in-loop
 // driver: it runs once at the end of every pass (after the ready descriptors were served), logs the pass end, applies
@@ -24,6 +28,8 @@
 #include <nlohmann/json.hpp>
 #include <tbox/event/loop.h>
 #include <tbox/event/fd_event.h>
+#include <tbox/event/timer_event.h>
+#include <tbox/base/verif_hook.h>
 
 using json = nlohmann::json;
 using namespace tbox::event;
@@ -37,11 +43,17 @@ struct Scenario {
     std::vector<FdEvent *> ev;          // [1..k], nullptr = not alive
     std::vector<std::string> evm;       // subscribed conditions of the slot
     std::vector<int> inv;               // callback invocations so far
-    json scripts, gaps;
+    json scripts, gaps, tscripts;
+    TimerEvent *timer = nullptr;
+    bool timer_pending = false;
+    int tinv = 0;
     int pass = 0;                       // passes completed
     int running = 0;                    // event whose callback is running
 };
 Scenario *S = nullptr;
+const int TIMER = 1000;                 // "in" of operations performed by the timer callback
+uint64_t vnow = 1000;                   // virtual monotonic clock, ms
+bool vclock(uint64_t &ms) { ms = vnow; return true; }
 
 std::string mask_json(bool r, bool w, bool x) {
     std::string s = "[";
@@ -114,6 +126,14 @@ void do_op(const json &op, int in) {
         log_ready(f);
         return;
     }
+    if (k == "arm") {
+        if (S->timer_pending) return;
+        S->timer->initialize(std::chrono::milliseconds(1), Event::Mode::kOneshot);
+        S->timer->enable();
+        S->timer_pending = true;
+        T.printf("{\"e\":\"Op\",\"in\":%d,\"k\":\"arm\",\"ev\":0,\"fd\":0,\"ret\":true}", in);
+        return;
+    }
     if (k == "close") {
         if (f < 1 || f > nf || S->d[f].closed) return;
         close(S->d[f].fd); S->d[f].closed = true;
@@ -142,10 +162,13 @@ void do_op(const json &op, int in) {
         delete p; S->ev[e] = nullptr;
     } else if (k == "init") {
         if (f < 1 || f > nf) return;
-        const std::string &mo = S->evm[e];
-        bool os = mo.back() == '1';
-        bool r = p->initialize(S->d[f].fd, mask_bits(mo), os ? Event::Mode::kOneshot : Event::Mode::kPersist);
-        T.printf("{\"e\":\"Op\",\"in\":%d,\"k\":\"init\",\"ev\":%d,\"fd\":%d,\"ret\":%s}", in, e, f, r ? "true" : "false");
+        const std::string &cur = S->evm[e];
+        std::string m = op.contains("m") ? op.value("m", std::string("R")) : cur.substr(0, cur.size() - 1);
+        bool os = op.contains("os") ? op.value("os", false) : cur.back() == '1';
+        bool r = p->initialize(S->d[f].fd, mask_bits(m), os ? Event::Mode::kOneshot : Event::Mode::kPersist);
+        if (r) S->evm[e] = m + (os ? "1" : "0");
+        T.printf("{\"e\":\"Op\",\"in\":%d,\"k\":\"init\",\"ev\":%d,\"fd\":%d,\"m\":%s,\"os\":%s,\"ret\":%s}", in, e, f,
+                 mask_json(m.find('R') != std::string::npos, m.find('W') != std::string::npos, false).c_str(), os ? "true" : "false", r ? "true" : "false");
     }
 }
 
@@ -165,6 +188,19 @@ void on_event(int i, short events) {
     T.printf("{\"e\":\"Ret\",\"ev\":%d}", i);
 }
 
+void on_timer() {
+    auto &T = vh::T();
+    S->timer_pending = false;
+    int j = ++S->tinv;
+    T.printf("{\"e\":\"TimerCb\",\"p\":%d}", S->pass + 1);
+    T.flush();
+    int saved = S->running; S->running = TIMER;
+    if ((int)S->tscripts.size() >= j)
+        for (const auto &op : S->tscripts[j - 1]) do_op(op, TIMER);
+    S->running = saved;
+    T.printf("{\"e\":\"TimerRet\"}");
+}
+
 void log_pass_end() {
     std::string st = "[";
     for (size_t i = 1; i < S->ev.size(); ++i) {
@@ -181,6 +217,7 @@ void step() {                                                    // the in-loop 
     if (S->pass >= npass) { S->loop->exitLoop(); return; }
     for (const auto &op : S->gaps[S->pass - 1]) do_op(op, 0);
     for (size_t f = 1; f < S->d.size(); ++f) log_ready((int)f);   // the environment's truth right before the next poll
+    vnow += 2;                                                    // an armed timer is due in the next pass
     S->loop->runNext(step, "c03 driver");
 }
 
@@ -202,6 +239,9 @@ void run_scenario(const json &sc, const std::string &be) {
     s.ev.assign(ne + 1, nullptr); s.evm.assign(ne + 1, "R0"); s.inv.assign(ne + 1, 0);
     s.scripts = sc.value("scripts", json::object());
     s.gaps = sc.value("gaps", json::array({json::array()}));
+    s.tscripts = sc.value("tscripts", json::array());
+    s.timer = s.loop->newTimerEvent("c03 timer");
+    s.timer->setCallback(on_timer);
     for (int e = 1; e <= ne; ++e) {
         const json &v = sc["ev"][e - 1];
         if (v.is_null()) continue;                               // slot left empty at the start
@@ -210,9 +250,11 @@ void run_scenario(const json &sc, const std::string &be) {
     for (const auto &op : sc.value("setup", json::array())) do_op(op, 0);
     for (int f = 1; f <= nf; ++f) log_ready(f);
     T.flush();
+    vnow += 2;
     s.loop->runNext(step, "c03 driver");
     s.loop->runLoop(Loop::Mode::kForever);
     T.printf("{\"e\":\"End\"}");
+    delete s.timer; s.timer = nullptr;
     for (int e = 1; e <= ne; ++e) { delete s.ev[e]; s.ev[e] = nullptr; }
     delete s.loop;
     for (int f = 1; f <= nf; ++f) { if (!s.d[f].closed) close(s.d[f].fd); close(s.d[f].peer); }
@@ -226,6 +268,7 @@ int main(int argc, char **argv) {
     signal(SIGPIPE, SIG_IGN);
     vh::T().open(argv[4]);
     vh::install_faults();
+    tbox::verif::Hooks().steady_ms = vclock;
     std::ifstream in(argv[2]);
     std::string line;
     while (std::getline(in, line)) {
